@@ -23,6 +23,10 @@ type GenOpts struct {
 	MaxSize  int    // cap on body size (0 = 1 MiB)
 	NoBig    bool   // leave out the 65537 / 1 MiB sizes
 	Proxy    bool   // message travels through a real proxy: keep to what Go's transport forwards verbatim
+	// BadQuery lets some request targets carry query pairs with a malformed
+	// percent-escape ("width=100%", "q=50%+off"): net/url keeps RawQuery verbatim
+	// and net/http accepts and forwards such targets.
+	BadQuery bool
 	// UndeclaredTrailers lets some chunked messages send trailer fields without
 	// announcing them in a Trailer header.
 	UndeclaredTrailers bool
@@ -630,6 +634,18 @@ func GenRequest(rng *rand.Rand, o GenOpts) *Spec {
 	if o.Rich && rng.Intn(2) == 0 || rng.Intn(5) == 0 {
 		s.RawQuery, s.Query = genQuery(rng)
 		s.HasQuery = true
+	}
+	if o.BadQuery && rng.Intn(6) == 0 {
+		bad := []string{"width=100%", "q=50%+off", "x=%zz", "%=1", "pct=5%25%", "t=%e9%"}[rng.Intn(6)]
+		switch {
+		case !s.HasQuery:
+			s.RawQuery = bad
+		case rng.Intn(2) == 0:
+			s.RawQuery = bad + "&" + s.RawQuery
+		default:
+			s.RawQuery += "&" + bad
+		}
+		s.HasQuery, s.BadQuery = true, true
 	}
 	s.Target = s.Scheme + "://" + s.Host + s.Path
 	if s.HasQuery {
